@@ -182,7 +182,16 @@ def run(prop, tier, replay=None):
                 # only schedules that end with a broker publish to an active, subscribed client
                 scheds = [d for d in scheds if d["events"][-1]["t"] == "BPub" and any(p["eff"] in (1, 2) for p in d["events"][-1]["pubs"])]
                 if tier == "quick":
-                    scheds = rnd.sample(scheds, min(12, len(scheds)))
+                    # a few schedules of every kind: effective QoS 1 / 2, topic new / known / short / predefined
+                    kinds = {}
+                    for d in scheds:
+                        p = d["events"][-1]["pubs"][0]
+                        kinds.setdefault((p["eff"], p["topic"], len(d["events"][-1]["pubs"])), []).append(d)
+                    scheds = []
+                    for k in sorted(kinds, key=repr):
+                        scheds += rnd.sample(kinds[k], min(2, len(kinds[k])))
+                    if len(scheds) > 24:
+                        scheds = rnd.sample(scheds, 24)
                 within, over = fault_patterns(2, tier, rnd)
                 for i, d in enumerate(scheds):
                     for j, f in enumerate(within):
